@@ -20,7 +20,7 @@ RULE = (
     "op family: per (mesh, pinned-set) BFS to fixpoint over set_link_exponents histories on a 9-letter alphabet of "
     "potentials (zero, uniform, uniform again as a new object, uniform*(1+5e-6), linear, wrapping, seeded per-edge, changed on half of the edges, changed on one edge) "
     "+ all histories of length <= depth without de-duplication; solver family: all scripts of per-step relative "
-    "increments {0, 5e-6, 1e-3, 0.7} of a time-dependent field of length L, with and without screening. "
+    "increments {0, 1e-12, 5e-6, 1e-3, 0.7} of a time-dependent field of length L, with and without screening. "
     "Non-trivial = history contains at least two different potentials."
 )
 STATE_DEF = "sha256 of psi_gradient/psi_laplacian (data, indices, indptr), link_exponents, laplacian_free_rows"
@@ -30,7 +30,7 @@ ASSUMPTIONS = [
 ]
 TOLERANCES = {"entry": 1e-14}
 ALPHABET = ["zero", "uni", "uni2", "uni_eps", "lin", "wrap", "rnd", "half", "one_edge"]
-INCS = [0.0, 5e-6, 1e-3, 0.7]
+INCS = [0.0, 5e-6, 1e-3, 0.7, 1e-12]
 
 
 def bound(tier):
@@ -68,7 +68,7 @@ def cases(tier, seed):
     devs = ["tiny"] if tier == "quick" else ["tiny", "G1"]
     for d in devs:
         for pre in itertools.product(range(len(INCS)), repeat=2):
-            out.append(dict(fam="solver", dev=d, screening=False, prefix=list(pre), L=L))
+            out.append(dict(fam="solver", dev=d, screening=False, prefix=list(pre), L=L - 1 if tier == "quick" else L))
         for pre in itertools.product(range(len(INCS)), repeat=1):
             out.append(dict(fam="solver", dev=d, screening=True, prefix=list(pre), L=Ls))
     return out
